@@ -92,6 +92,7 @@ PROPS["C39"] = dict(
     streams={
         "filter": dict(runner="C39_filter_run", in_t="C39_filter_in", out_t="C39_filter_out", shard=150),
         "contains": dict(runner="C39_contains_run", in_t="(bytes * N)", out_t="(outcome bool)", shard=300),
+        "tok": dict(runner="C39_tok_run", in_t="C39_tok_in", out_t="(list (list N))", shard=150),
         "sketch": dict(runner="C39_sketch_run", in_t="C39_sketch_in", out_t="C39_sketch_out", shard=40),
         "idf": dict(runner="C39_idf_run", in_t="C39_idf_in", out_t="C39_sketch_out", shard=40),
         "track": dict(runner="C39_track_run", in_t="C39_track_in", out_t="C39_track_out", shard=60),
@@ -101,7 +102,8 @@ PROPS["C39"] = dict(
     level_note="Trusted: Coq kernel + vm_compute; hand-written model tied by differential runs (filter bytes, weights, simhash, top terms, written bytes, read-back tracks, error kinds on damaged bytes); tokenizer (NFKC, lower-casing, is_alphanumeric), BLAKE3 hash_token and the f32 weight formula are Section variables (the theorems hold for every choice); debug-profile overflow semantics. The track round trip is a known finding (F-C39-1..3), not repaired: the format stores no frame ids, Large is stored as Medium, Small has no room for flags/weight/length.",
     n_quick=420, n_thorough=6000,
     rule="filter: 0-40 hashes (random, 0, MAX, <2^16, <2^32, lanes next to multiples of the bit count, single bits) into filters of 0,1-7,16,32,64,1-100 bytes, probed with every added hash plus one-bit neighbours and fresh hashes; "
-         "sketch: texts of 0-2570 tokens (edges at 49-51 and 2535-2570) over per-text vocabularies incl. Unicode (NFKC ligatures, full-width, combining marks, CJK, dotted I), one-character words and skewed repeats, all three variants; "
+         "sketch: a fixed corpus first (every token shape alone, between ASCII tokens, repeated, behind punctuation and non-ASCII white space: 1 char/1 byte (dropped), 1 char/2, 3, 4 bytes (kept: the rule is byte length >= 2), 2 chars/2-8 bytes, NFKC ligatures / full-width / fractions / mathematical letters / decomposed accents, lower-casing of capital sharp s, dotted capital I, final sigma), then texts of 0-2580 tokens (edges at 49-51 and 2535-2570) over per-text vocabularies incl. Unicode (NFKC ligatures, full-width, combining marks, CJK, dotted I), one-character words and skewed repeats, all three variants; "
+         "every token tokenize_for_sketch emits for the text is checked against the generated entry (and as a one-token query); tok: the tokenizer against the model's split + byte-length rule on the corpus, every vocabulary word and generated texts; "
          "idf: the same texts with an idf map whose values make the f32 weight formula exact (small dyadic fractions, values below the 0.1 clamp, sums beyond the u16 cap, weights near and beyond the u32 sum overflow); "
          "track: 0-19 entries made by generate_sketch / hand-built in and out of the on-disk shape, ids dense, re-inserted, offset, permuted, sparse, duplicate, with gaps, written after 0-39 noise bytes and followed by 0-39; "
          "read: written tracks with damaged magic, entry size, count (incl. overflowing), version, truncation, wrong offset/length, random bytes; "
